@@ -41,6 +41,9 @@ type Expect struct {
 	Offered []Offer `json:"offered,omitempty"`
 	// SyncDeleted: paths reported with a 404 response status (sync-collection).
 	SyncDeleted []string `json:"sync_deleted,omitempty"`
+	// SyncNotDeleted: paths reported with a failing response status other than
+	// 404: the resource failed, it was not removed.
+	SyncNotDeleted []string `json:"sync_not_deleted,omitempty"`
 	// StrOneOf: a successful single-value result must be one of these.
 	StrOneOf []string `json:"str_one_of,omitempty"`
 }
@@ -331,18 +334,46 @@ func judge(c *fw.Ctx, m *minfo, cs *Case, oc *outcome) {
 		}
 		c.Observe("checks", "sync-collection 404 responses found in Deleted", 1)
 	}
+	if len(cs.Exp.SyncNotDeleted) > 0 {
+		del := map[string]bool{}
+		for _, p := range out.Deleted {
+			del[p] = true
+		}
+		for _, p := range cs.Exp.SyncNotDeleted {
+			if del[p] {
+				report("207 + multistatus: response with failing status other than 404", "reported as deleted", fmt.Sprintf("%s in Deleted %q", p, out.Deleted))
+			}
+		}
+		c.Observe("checks", "sync-collection non-404 failures absent from Deleted", 1)
+	}
 }
 
-// sampleWorthy picks a few literal cases for the evidence file: failing
-// statuses inside a multistatus that the call survived, and HTTP failures
-// carrying a DAV:error.
+// sampleWorthy picks a few literal cases of different kinds for the evidence
+// file: one HTTP failure carrying a DAV:error, failing statuses inside a
+// multistatus that the call survived, one corrupt document, one valid one.
+var sampled = map[string]bool{}
+
 func sampleWorthy(cs *Case, res string) bool {
-	h := fnv.New32a()
-	h.Write([]byte(cs.DKey))
-	if h.Sum32()%53 != 0 {
+	var slot string
+	switch {
+	case cs.W == "matrix" && cs.Exp.Cond != "" && cs.Status >= 400:
+		slot = "matrix"
+	case cs.W == "placements" && cs.Exp.Verdict == "any" && res == "ok" && len(cs.Exp.SyncDeleted) == 0:
+		slot = "placement-survived"
+	case cs.W == "placements" && len(cs.Exp.SyncDeleted) > 0 && res == "ok":
+		slot = "sync-deleted"
+	case cs.W == "corrupt" && cs.Exp.Verdict == "err":
+		slot = "corrupt"
+	default:
 		return false
 	}
-	return cs.W == "placements" && cs.Exp.Verdict == "any" && res == "ok" || cs.W == "matrix" && cs.Exp.Cond != "" || cs.W == "corrupt"
+	h := fnv.New32a()
+	h.Write([]byte(cs.DKey))
+	if sampled[slot] || h.Sum32()%7 != 0 {
+		return false
+	}
+	sampled[slot] = true
+	return true
 }
 
 // subset: every field of a returned entry is either empty or what the
